@@ -16,6 +16,8 @@
 (* Deliberate deviations of the code are model parameters, so that TLC can  *)
 (* refute them:                                                             *)
 (*   PathOnly      documents keyed by uri.path() instead of the full URI    *)
+(*   SpawnOnFull   `didChange` does not block on a full doctx but spawns a  *)
+(*                 task that sends later: notifications overtake each other *)
 (*   AbruptExit    `exit` outside the shutdown phase kills the process at   *)
 (*                 once (responses still queued in iotx are lost)           *)
 EXTENDS Naturals, Sequences, FiniteSets, TLC
@@ -24,6 +26,7 @@ CONSTANTS MaxMsgs,      \* bound on the number of client messages
           DocCap, IoCap,\* channel capacities (32 in the code; any >= 1 must work)
           DiagCap,      \* client announced publishDiagnostics support
           PathOnly, AbruptExit,
+          SpawnOnFull,  \* deviation: a change notification that finds doctx full is handed to a spawned task (sent later, in any order)
           StartMain,    \* explore from an already initialised session (saves message budget)
           URIs,         \* document URIs the client uses
           Alphabet      \* message types the client uses (subset of MsgTypes)
